@@ -45,7 +45,11 @@ def extract_atom(
     :param should_remove_trailing_zeros: whether to remove trailing zeros or not.
     :return: the PDDL expression.
     """
-    if expression.func in (Float, Rational, Half):
+    if expression.func in (Rational, Half):
+        # format() of a sympy Rational is not reliable: format(Rational(-7, 8823), ".3f") gives "-0.000".
+        expression = Float(expression)
+
+    if expression.func == Float:
         rounded_value = round(float(expression), decimal_digits)
         formatted_expression = (
             format(expression, f".{decimal_digits}f")
